@@ -1,7 +1,7 @@
 /* C08 --- uncondition variable: single-slot SPSC hand-off following the documented protocol
  * (waiter announces itself with a CAS on the data word, the other side clears the announcement and signals). */
 #include "hcommon.h"
-typedef struct { int n, W, K, order, relay; } prog_t;
+typedef struct { int n, W, K, order, relay; } prog_t;   /* relay: 0 SPSC, 1 relay, 2 one waiter + a fresh detached signaler thread per rendezvous */
 #define MAXP 64
 static prog_t P[2][MAXP]; static int NP[2];
 static void add(int tier, int n, int order, int W, int K) { if (NP[tier] < MAXP) { prog_t * p = &P[tier][NP[tier]++]; p->n = n; p->order = order; p->W = W; p->K = K; p->relay = 0; } }
@@ -17,10 +17,16 @@ static void build(void) {
     if (NP[tier] < MAXP) { prog_t * p = &P[tier][NP[tier]++]; p->n = n; p->order = 0; p->W = W; p->K = (n == 2 ? (tier ? 3 : 2) : (tier ? 2 : 1)); if (W == 3 && p->K > 2) p->K = 2; p->relay = 1; }
   }
 }
-static int nprogs(int tier) { build(); return NP[tier]; }
-static void config(int tier, int prog, int * W, int * K) { build(); *W = P[tier][prog].W; *K = P[tier][prog].K; }
-static void describe(int tier, int prog, char * b, size_t n) { build(); prog_t * p = &P[tier][prog];
-  if (p->relay) snprintf(b, n, "uncond relay: one signaler, two alternating waiters, %d rendezvous on one variable", p->n);
+static void build2(void) {
+  static int built2; if (built2) return; built2 = 1; build();
+  for (int tier = 0; tier < 2; tier++) for (int W = 1; W <= 2; W++) for (int n = 2; n <= (tier ? 4 : 3); n++)
+    if (NP[tier] < MAXP) { prog_t * p = &P[tier][NP[tier]++]; p->n = n; p->order = 0; p->W = W; p->K = n == 2 ? 2 : 1; p->relay = 2; }
+}
+static int nprogs(int tier) { build2(); return NP[tier]; }
+static void config(int tier, int prog, int * W, int * K) { build2(); *W = P[tier][prog].W; *K = P[tier][prog].K; }
+static void describe(int tier, int prog, char * b, size_t n) { build2(); prog_t * p = &P[tier][prog];
+  if (p->relay == 2) snprintf(b, n, "uncond: one waiter, %d rendezvous, each signalled by a fresh detached thread that ends right after the signal", p->n);
+  else if (p->relay) snprintf(b, n, "uncond relay: one signaler, two alternating waiters, %d rendezvous on one variable", p->n);
   else snprintf(b, n, "uncond SPSC hand-off of %d items, %s created first", p->n, p->order ? "consumer" : "producer"); }
 enum { ST_FULL = 1, ST_SLEEPING = 2 };
 static prog_t * cur; static volatile long cell; static myth_uncond_t u;
@@ -80,6 +86,47 @@ static void * relay_signaler(void * a) {
   }
   return 0;
 }
+/* detached signalers */
+static volatile int ds_done[6];
+static void * ds_waiter(void * a) {
+  (void)a; myth_thread_t me = myth_self();
+  for (int r = 0; r < cur->n; r++) {
+    mv_point(&rv[r], sizeof(long));
+    if (__sync_bool_compare_and_swap(&rv[r], 0, 2)) {
+      myth_uncond_wait(&u);
+      MV_CHECK(rv_signalled[r], "waiter resumed in rendezvous %d although its signal was never issued", r);
+      mv_cover(0);
+    }
+    MV_CHECK(myth_self() == me, "after rendezvous %d myth_self() of the waiter is %p, before it was %p (the worker's notion of the running thread is stale)", r, (void *)myth_self(), (void *)me);
+    rv_resumed[r]++;
+    mv_point(&ds_done[r], sizeof(int)); ds_done[r] = 1;
+  }
+  return (void *)1;
+}
+static void * ds_signaler(void * a) {
+  int r = (int)(long)a;
+  mv_point(&rv[r], sizeof(long));
+  long o = __sync_val_compare_and_swap(&rv[r], 0, 1);
+  if (o == 2) { mv_point(&rv_signalled[r], sizeof(int)); rv_signalled[r] = 1; mv_cover(1); mv_cover(2); myth_uncond_signal(&u); }
+  return 0;                       /* ends at once: its record is released while the waiter it woke may be next on this worker */
+}
+static void run_detached_signalers(void) {
+  h_uncond_init(&u);
+  myth_thread_t w = myth_create(ds_waiter, 0);
+  for (int r = 0; r < cur->n; r++) {
+    myth_thread_t s;
+    if (r & 1) { s = myth_create(ds_signaler, (void *)(long)r); myth_detach(s); }
+    else { myth_thread_attr_t at; memset(&at, 0x5A, sizeof at); myth_thread_attr_init(&at); myth_thread_attr_setdetachstate(&at, 1 /* detached */); myth_create_ex(&s, &at, ds_signaler, (void *)(long)r); }
+    while (!ds_done[r]) mv_wait_until_changed(&ds_done[r], sizeof(int));
+  }
+  void * res = 0; myth_join(w, &res); MV_CHECK(res == (void *)1, "waiter delivered %p", res);
+  mv_quiesce();
+  for (int r = 0; r < cur->n; r++) MV_CHECK(rv_resumed[r] == 1, "rendezvous %d: waiter passed %d times", r, rv_resumed[r]);
+  MV_CHECK(u.th == 0, "uncondition variable still holds a thread at the end");
+  mv_obs("detached signalers n=%d", cur->n);
+  h_uncond_epilogue(&u);
+  mv_finish();
+}
 static void run_relay(void) {
   h_uncond_init(&u);
   myth_thread_t w0 = myth_create(relay_waiter, (void *)0), w1 = myth_create(relay_waiter, (void *)1), sg = myth_create(relay_signaler, 0);
@@ -91,8 +138,10 @@ static void run_relay(void) {
   mv_finish();
 }
 static void run(int tier, int prog) {
-  build(); cur = &P[tier][prog];
+  build2(); cur = &P[tier][prog];
   mv_start(cur->W);
+  h_maybe_custom_steal(prog, cur->W);
+  if (cur->relay == 2) { run_detached_signalers(); return; }
   if (cur->relay) { run_relay(); return; }
   h_uncond_init(&u);
   myth_thread_t a, b; void * r = 0;
